@@ -1,5 +1,6 @@
 (* codecs/h264_packet.go: H264Payloader.Payload, H264Packet.Unmarshal (parseBody, doPackaging),
-   IsPartitionHead.  Fixed tree: held SPS/PPS are copies; a FU-A start fragment resets the buffer. *)
+   IsPartitionHead.  Fixed tree: held SPS/PPS are copies; a FU-A start fragment resets the buffer; a held SPS/PPS
+   pair whose STAP-A exceeds the MTU is sent as two separate units instead of being dropped. *)
 From Coq Require Import ZArith List Lia Bool.
 From RTP Require Import Base.Bits Base.Res Base.ListX Base.Bytes Base.Own Model.AnnexB.
 Import ListNotations.
@@ -39,6 +40,10 @@ Definition emit_single_or_fua (mtu : Z) (nalu : list Z) : res (list bref) :=
       else fua_frags (S (length body)) maxf (Z.land b0 96) (Z.land b0 31) len body
   end.
 
+(* packetizeH264Nalu reads nalu[0] before anything else *)
+Definition packetize_nalu (mtu : Z) (nalu : list Z) : res (list bref) :=
+  match nalu with [] => Panic | _ => emit_single_or_fua mtu nalu end.
+
 (* the callback of emitNalus *)
 Definition h264_nalu (mtu : Z) (st : h264pay) (nalu : list Z) : res (h264pay * list bref) :=
   match nalu with
@@ -60,7 +65,19 @@ Definition h264_nalu (mtu : Z) (st : h264pay) (nalu : list Z) : res (h264pay * l
       match negb (hp_disable_stapa st), hp_sps st, hp_pps st with
       | true, Some sps, Some pps =>
         let stap := 120 :: put16 (u16 (zlen sps)) ++ sps ++ put16 (u16 (zlen pps)) ++ pps in
-        single (mkH264Pay false None None) (if zlen stap <=? mtu then [Own stap] else [])
+        if zlen stap <=? mtu then single (mkH264Pay false None None) [Own stap]
+        else
+          (* the pair does not fit one STAP-A: each parameter set goes out on its own *)
+          match packetize_nalu mtu sps with
+          | Ok f1 =>
+            match packetize_nalu mtu pps with
+            | Ok f2 => single (mkH264Pay false None None) (f1 ++ f2)
+            | Err e => Err e
+            | Panic => Panic
+            end
+          | Err e => Err e
+          | Panic => Panic
+          end
       | _, _, _ => single st []
       end
   end.
